@@ -18,7 +18,7 @@ class ScriptEnd(Exception):
     """Raised by ScriptedTransport.read when the harness has no more lines (harness-made)."""
 
 
-FAULT_CLASSES = ("TransportFailedError", "TransportError", "HarnessTransportError")
+FAULT_CLASSES = ("TransportFailedError", "TransportError", "HarnessTransportError", "TransportFailedError<-OSError")
 
 
 def make_fault(name: str, attempt: int) -> BaseException:
@@ -32,6 +32,11 @@ def make_fault(name: str, attempt: int) -> BaseException:
         return TransportError(text)
     if name == "HarnessTransportError":
         return type("HarnessTransportError", (TransportError,), {})(text)
+    if name == "TransportFailedError<-OSError":
+        # what the built-in stream transports raise: a TransportFailedError chained to the OS error (`raise ... from err`)
+        error = TransportFailedError(f"Failed writing to stream transport: [Errno 104] Connection reset by peer ({text})")
+        error.__cause__ = ConnectionResetError(104, "Connection reset by peer")
+        return error
     return TransportFailedError(text)
 
 
